@@ -583,6 +583,14 @@ func main() {
 				a.body = w.B
 				emit(a, follower(a))
 			}
+			// an unknown magic byte in the first entry: refused (a framing error: A and the follow-up fail)
+			a := buildFetch(r, v, magic, 3, 1, 0, 0)
+			a.sh.Set = append([]byte{}, a.sh.Set...)
+			a.sh.Set[16] = byte(3 + r.Intn(200))
+			w := &connfake.W{}
+			a.op.Build(v, w, r, a.sh)
+			a.body = w.B
+			emit(a, follower(a))
 		}
 	}
 	// ApiVersions as the follow-up operation (inside the main theorems since C11-D33): after every operation, with
